@@ -512,7 +512,7 @@ func mandatoryLookup(lk *ssa.Lookup) bool {
 			}
 			els := ifi.Block().Succs[1]
 			for _, in := range els.Instrs {
-				if _, isP := in.(*ssa.Panic); isP {
+				if isPanicLike(in) {
 					return true
 				}
 			}
